@@ -385,6 +385,9 @@ __attribute__((visibility("default"))) int vdrive_on_exec(const char *fn, const 
         looked = 1;
     }
     if (noattr) noattr(1);
+    /* marker written before any sampling: everything between the BEGIN line and this one is the library's own work */
+    eb_printf("{\"ev\":\"ENTER\",\"id\":%ld}\n", cc.id);
+    eb_flush();
     cc.nreal++;
     eb_printf("{\"ev\":\"REAL\",\"id\":%ld,\"n\":%d,\"fn\":\"%s\",\"pid\":%d,\"tid\":%ld,", cc.id, cc.nreal, fn, getpid(), (long) syscall(SYS_gettid));
     eb_printf("\"same_path\":%d,\"same_argv\":%d,", path == cc.path, argv == cc.argv);
